@@ -43,19 +43,20 @@ fn ref_canon(v: &RefValue, num: &dyn Fn(&str) -> String) -> RefValue {
 }
 
 /// spellings with their ECMAScript rendering (RFC 8785 section 3.2.2.3 and appendix B)
-const NUMBERS: [(&str, &str); 22] = [
+const NUMBERS: [(&str, &str); 25] = [
     ("0", "0"), ("-0", "0"), ("1", "1"), ("1.0", "1"), ("-1.50", "-1.5"), ("10e-1", "1"), ("1e2", "100"), ("1E30", "1e+30"), ("4.50", "4.5"),
     ("2e-3", "0.002"), ("0.000000000000000000000000001", "1e-27"), ("333333333.33333329", "333333333.3333333"), ("1e21", "1e+21"),
     ("123456789012345680000", "123456789012345680000"), ("0.000001", "0.000001"), ("1e-7", "1e-7"), ("5e-324", "5e-324"),
     ("1.7976931348623157e308", "1.7976931348623157e+308"), ("9007199254740992", "9007199254740992"), ("1424953923781206.2", "1424953923781206.2"),
     ("0.1", "0.1"), ("100000000000000000000", "100000000000000000000"),
+    ("9007199254740993", "9007199254740992"), ("9223372036854775807", "9223372036854776000"), ("-9007199254740993", "-9007199254740992"),
 ];
 
 fn canon_text(v: &RefValue) -> String { let mut r = to_real(v); r.canonicalize(); r.compact_print().to_string() }
 
 fn canonical(prop: &str, thorough: bool, seed: u64, rep: &mut Report) {
     let mut rng = Rng(seed.wrapping_mul(0x9E3779B97F4A7C15) | 1);
-    let keys = ["", "a", "b", "aa", "\u{e000}", "\u{10000}", "\u{ffff}", "\u{1F600}", "\u{e9}", "A", "\n"];
+    let keys = ["", "a", "b", "aa", "\u{e000}", "\u{10000}", "\u{ffff}", "\u{1F600}", "\u{e9}", "A", "\n", "\u{7f}/", "\u{1f}\"\\", "\u{2028}"];
     let num_ident = |s: &str| -> String { NUMBERS.iter().find(|(a, _)| *a == s).map(|(_, b)| b.to_string()).unwrap_or(s.to_string()) };
     rep.rule = "objects over keys that separate UTF-16 order from code-point order (U+E000, U+FFFF vs non-BMP), nested two levels, all number spellings of the RFC 8785 table; compared with: sort by UTF-16 units at every level + reference compact serializer; non-trivial = at least two members".into();
     rep.bounds = vec![("keys".into(), keys.len().to_string()), ("numbers".into(), NUMBERS.len().to_string())];
